@@ -36,7 +36,11 @@ ENGINES = [
 
 NOTES = (
     "All checks: ./check <id> [--tier quick|thorough] [--replay file]. VERIF_SEED rotates shard order only; the covered "
-    "space is seed independent. Known findings / repaired defects: KNOWN_FINDINGS.txt."
+    "space is seed independent. Known findings / repaired defects: KNOWN_FINDINGS.txt. Every check = the exhaustive small scope "
+    "named in its text + deterministic families beyond it (scale thresholds, object histories, structured mid-sized inputs such as "
+    "the graph zoo and the longest winding loops, dense parameter sweeps, call spellings, aliasing and two-layer uses of one object); "
+    "the exact lists are in each evidence file (coverage.bounds) and in DESIGN.md 7.2 / 7.5; 143 independently written "
+    "property-breaking changes and the checks that report them are in seeded/ and DESIGN.md 7.6."
 )
 
 CHECKS = [
